@@ -34,7 +34,7 @@ EXTENDS GlomData
 CONSTANTS Fixes,     \* subset of {"stop", "skiptrace"}: candidate repairs applied to the
                      \* transcribed mechanism ({} = the code as it is)
           Mutant     \* "none" | "carry" | "avgint" | "limit1" | "firstlast" | "curagg" | "minnum" | "sampledrop" |
-                     \* "list2swap" | "eqskip" | "eager" | "rawbucket" | "nobase":
+                     \* "list2swap" | "eqskip" | "eager" | "idkeys" | "rawbucket" | "nobase":
                      \* wrong mechanisms the laws must reject (vacuity check); the last two are
                      \* the mechanisms of glom before fd673fd / b769243
 
@@ -71,6 +71,24 @@ IsExc(v)      == v.k = "exc"
 
 DList(s) == [k |-> "list", items |-> s]         \* structural (deep) values of results
 DDict(s) == [k |-> "dict", items |-> s]
+
+\* Python's == between dict keys: numbers are equal by value whatever their type (1 == 1.0 == True,
+\* 0 == False), (id, key) pairs item by item, anything else only with itself; the dict keeps the key
+\* object that came first.  A list / dict value is unhashable: using it as a key raises TypeError.
+NumLike(v) == v.k \in {"int", "bool", "frac"}
+NumVal(v)  == CASE v.k = "int" -> <<v.i, 1>> [] v.k = "bool" -> <<IF v.b THEN 1 ELSE 0, 1>> [] v.k = "frac" -> <<v.n, v.d>>
+RECURSIVE PyEq(_, _)
+PyEq(a, b) ==
+  IF NumLike(a) /\ NumLike(b) THEN NumVal(a) = NumVal(b)
+  ELSE IF a.k = "bucket" /\ b.k = "bucket" THEN a.n = b.n /\ PyEq(a.key, b.key)
+  ELSE a = b
+Unhashable(v) == v.k \in {"list", "dict"}
+RECURSIVE PFind(_, _, _)
+PFind(items, key, i) == IF i > Len(items) THEN 0 ELSE IF PyEq(items[i][1], key) THEN i ELSE PFind(items, key, i + 1)
+PHas(items, key) == PFind(items, key, 1) # 0
+PGet(items, key) == items[PFind(items, key, 1)][2]
+PSet(items, key, val) ==
+  IF PHas(items, key) THEN [items EXCEPT ![PFind(items, key, 1)][2] = val] ELSE Append(items, <<key, val>>)
 
 RECURSIVE Gcd(_, _)
 Gcd(a, b) == IF b = 0 THEN a ELSE Gcd(b, a % b)
@@ -123,10 +141,10 @@ MinOf(xs, i, m) == IF i > Len(xs) THEN m ELSE MinOf(xs, i + 1, IF Lt(xs[i], m) T
 RECURSIVE Dedup(_, _)
 Dedup(s, acc) ==
   IF s = <<>> THEN acc
-  ELSE Dedup(Tail(s), IF \E i \in 1..Len(acc) : acc[i] = Head(s) THEN acc ELSE Append(acc, Head(s)))
+  ELSE Dedup(Tail(s), IF \E i \in 1..Len(acc) : PyEq(acc[i], Head(s)) THEN acc ELSE Append(acc, Head(s)))
 RECURSIVE UpdateAll(_, _)
 UpdateAll(items, pairs) ==          \* dict.update: existing keys keep their place, last writer wins
-  IF pairs = <<>> THEN items ELSE UpdateAll(SetKey(items, Head(pairs)[1], Head(pairs)[2]), Tail(pairs))
+  IF pairs = <<>> THEN items ELSE UpdateAll(PSet(items, Head(pairs)[1], Head(pairs)[2]), Tail(pairs))
 RECURSIVE ConcatMap(_, _)
 ConcatMap(vf, xs) == IF xs = <<>> THEN <<>> ELSE FlatElems(vf, Head(xs)) \o ConcatMap(vf, Tail(xs))
 RECURSIVE MergeAll(_, _, _)
@@ -155,7 +173,8 @@ RefLeaf(L, xs) ==
     [] L.op = "last" -> IF xs = <<>> THEN VNone ELSE ValApply(L.val, xs[Len(xs)])
     [] L.op = "agg" ->
          CASE L.agg = "Count"   -> VInt(Len(xs))                       \* len(xs)
-           [] L.agg = "Sample"  -> DList(xs)       \* a sample of n out of no more than n values: all of them
+           [] L.agg = "Sample"  -> IF L.n = 0 THEN DList(<<>>)   \* a sample of no values
+                                   ELSE DList(xs)          \* n out of no more than n values: all of them
            [] L.agg = "Sum"     -> VInt(SumVals(L.val, xs))            \* sum(val(x) for x in xs)
            [] L.agg = "Flatten" -> DList(ConcatMap(L.val, xs))              \* list(chain.from_iterable(..))
            [] L.agg = "Merge"   -> DDict(MergeAll(L.val, <<>>, xs))         \* d = {}; d.update(..) ...
@@ -173,7 +192,7 @@ RefAt(spec, l, xs) ==
   LET L == spec[l] IN
   IF L.op = "dict" THEN
     LET ks == Dedup([i \in 1..Len(xs) |-> KeyApply(L.key, xs[i])], <<>>)
-        Routed(key) == LET Here(x) == KeyApply(L.key, x) = key IN SelectSeq(xs, Here)
+        Routed(key) == LET Here(x) == PyEq(KeyApply(L.key, x), key) IN SelectSeq(xs, Here)
     IN DDict([j \in 1..Len(ks) |-> <<ks[j], RefAt(spec, l + 1, Routed(ks[j]))>>])
   ELSE IF L.op = "limit" THEN RefAt(spec, l + 1, Take(xs, L.n))     \* per bucket: the first n routed here
   ELSE RefLeaf(L, xs)
@@ -182,18 +201,27 @@ Body(spec)      == IF spec[1].op = "limit" THEN 2 ELSE 1
 Passed(spec, xs) ==      \* a top-level Limit(n) passes the first n items on
   IF spec[1].op = "limit" THEN Take(xs, spec[1].n) ELSE xs
 Kept(spec, xs)  == LET Surv(x) == Survives(spec, Body(spec), x) IN SelectSeq(Passed(spec, xs), Surv)
-RefGroup(spec, xs) == RefAt(spec, Body(spec), Kept(spec, xs))     \* (declared RECURSIVE above)
+\* like a dict, the loop fails with TypeError on the first key that cannot be hashed
+HashFail(spec, xs) ==
+  LET ps == Passed(spec, xs) IN
+  \E i \in 1..Len(ps) : \E l \in 1..Len(spec) :
+     /\ spec[l].op = "dict" /\ Unhashable(KeyApply(spec[l].key, ps[i]))
+     /\ \A m \in 1..(l - 1) : spec[m].op = "dict" => KeyApply(spec[m].key, ps[i]) # SKIP
+RefGroup(spec, xs) ==                                              \* (declared RECURSIVE above)
+  IF HashFail(spec, xs) THEN VExc("TypeError") ELSE RefAt(spec, Body(spec), Kept(spec, xs))
 \* the reference is defined (the law constrains the result) unless a bare aggregator / bare
 \* value has received no item at all
 \* ... and unless a Sample(n) leaf has been offered more than n values (then it is random)
 KeyPath(sp, x) == [l \in 1..Len(sp) |-> IF sp[l].op = "dict" THEN KeyApply(sp[l].key, x) ELSE VNone]
+SamePath(sp, x, y) == \A l \in 1..Len(sp) : PyEq(KeyPath(sp, x)[l], KeyPath(sp, y)[l])
 SampleFits(spec, xs) ==
   LET L == spec[Len(spec)]  ks == Kept(spec, xs) IN
-  L.op = "agg" /\ L.agg = "Sample" =>
-    \A i \in 1..Len(ks) : Cardinality({j \in 1..Len(ks) : KeyPath(spec, ks[j]) = KeyPath(spec, ks[i])}) <= L.n
+  L.op = "agg" /\ L.agg = "Sample" /\ L.n > 0 =>
+    \A i \in 1..Len(ks) : Cardinality({j \in 1..Len(ks) : SamePath(spec, ks[j], ks[i])}) <= L.n
 RefDefined(spec, xs) ==
-  /\ spec[Body(spec)].op \in {"dict", "list", "list2"} \/ Kept(spec, xs) # <<>>
-  /\ SampleFits(spec, xs)
+  \/ HashFail(spec, xs)
+  \/ /\ spec[Body(spec)].op \in {"dict", "list", "list2"} \/ Kept(spec, xs) # <<>>
+     /\ SampleFits(spec, xs)
 
 \* A lazy source that fails (raises) when asked for the item after xs.  The hand-written loop
 \* takes items one at a time and is finished once a top-level Limit(n) has passed n values on
@@ -205,18 +233,19 @@ TopCap(sp) ==
       b == IF L.op = "agg" /\ L.agg = "First" THEN 1 ELSE NoCap
   IN IF a < b THEN a ELSE b
 RefEval(sp, xs, faulted) ==
-  IF ~faulted \/ Len(xs) > TopCap(sp) THEN RefGroup(sp, xs) ELSE VExc("SourceError")
+  IF ~faulted \/ Len(xs) > TopCap(sp) \/ HashFail(sp, xs) THEN RefGroup(sp, xs) ELSE VExc("SourceError")
 \* (whether the loop looks at the source once more after the value that fills it is not decided)
 RefEvalDefined(sp, xs, faulted) ==
-  IF ~faulted \/ Len(xs) > TopCap(sp) THEN RefDefined(sp, xs) ELSE Len(xs) < TopCap(sp)
+  IF ~faulted \/ Len(xs) > TopCap(sp) \/ HashFail(sp, xs) THEN RefDefined(sp, xs) ELSE Len(xs) < TopCap(sp)
 
 \* ================================================================================
 \* PART 2.  The mechanism: glom/grouping.py, glom/reduction.py (group mode)
 \* ================================================================================
 \* objects of one Group evaluation: heap cells of class "dict" / "list"
-DHas(h, a, key)      == HasKey(h[a].items, key)
-DGet(h, a, key)      == Lookup(h[a].items, key)
-DSet(h, a, key, val) == [h EXCEPT ![a].items = SetKey(@, key, val)]
+\* (mutant "idkeys": the accumulator dicts tell keys apart by type as well: 1, 1.0, True)
+DHas(h, a, key)      == IF Mutant = "idkeys" THEN HasKey(h[a].items, key) ELSE PHas(h[a].items, key)
+DGet(h, a, key)      == IF Mutant = "idkeys" THEN Lookup(h[a].items, key) ELSE PGet(h[a].items, key)
+DSet(h, a, key, val) == [h EXCEPT ![a].items = IF Mutant = "idkeys" THEN SetKey(@, key, val) ELSE PSet(@, key, val)]
 NewAddr(h)           == Len(h) + 1
 
 R(h, r) == [h |-> h, r |-> r]
@@ -302,6 +331,7 @@ GEval(spec, h, ta, l, x) ==
             ELSE
               LET key == KeyApply(L.key, x) IN
               IF key = SKIP THEN RetAcc(h1, acc)
+              ELSE IF Unhashable(key) THEN R(h1, VExc("TypeError"))   \* key not in acc: unhashable type
               ELSE
                 LET bk  == IF Mutant = "rawbucket" THEN key ELSE BucketKey(l, key)   \* bucket = (_spec_id, key)
                     h2  == IF ~DHas(h1, acc.a, key)                \* if key not in acc: tree[bucket] = {}
@@ -450,7 +480,7 @@ NestedLimit(sp) == {l \in (Body(sp) + 1)..Len(sp) : sp[l].op = "limit"}
 RegionFirstStop(sp, xs) ==
   /\ NKeyLevels(sp) >= 1
   /\ LET ks == Kept(sp, xs)
-         Offered(i) == Cardinality({j \in 1..Len(ks) : BucketPath(sp, ks[j]) = BucketPath(sp, ks[i])})
+         Offered(i) == Cardinality({j \in 1..Len(ks) : SamePath(sp, ks[j], ks[i])})
      IN \/ Leaf(sp).op = "agg" /\ Leaf(sp).agg = "First" /\ \E i \in 1..Len(ks) : Offered(i) > 1
         \/ \E l \in NestedLimit(sp) : \E i \in 1..Len(ks) : Offered(i) > sp[l].n
 \* (F2) an item that passes the first key level is dropped (SKIP) further down, where the
